@@ -29,9 +29,13 @@ RULE = ("scripts of 6-45 actions on 1-5 components (meter/inverter/battery/EV ch
         "connection point) run on the real MicrogridApiSource (65 %) or DataSourcingActor (35 %): subscriptions "
         "before the first message, exactly between two messages, back-to-back, 1-3 loop iterations after a message "
         "(fan-out in flight), after 3-12 queued messages, duplicated, for unknown ids, for other metrics / namespaces / "
-        "start times; fake API stream methods optionally suspend; every message carries pairwise distinct exact "
-        "values (integers, halves, rarely NaN) in all attributes.  non-trivial = at least two accepted subscriptions "
-        "on one component with a message streamed before the later one; distinct by canonical JSON hash")
+        "start times; fake API stream methods optionally suspend; every message carries exact values (integers, "
+        "halves, rarely NaN) in all attributes, pairwise distinct within a message; message CONTENT is unconstrained: "
+        "per case the timestamps of a component are increasing / repeated / going backwards / far apart (days, years, "
+        "the epoch, before it) / equal across components / all equal / a mix, and with p = 0, 0.15 or 0.4 a message "
+        "repeats the values (half of those also the timestamp) of its predecessor.  non-trivial = at least two "
+        "accepted subscriptions on one component with a message streamed before the later one; distinct by canonical "
+        "JSON hash")
 
 
 def check_case(ctx: Ctx, case: dict) -> tuple[dict, dict]:
@@ -50,7 +54,7 @@ def check_case(ctx: Ctx, case: dict) -> tuple[dict, dict]:
     for i, e in enumerate(log):
         if e["e"] == "message":
             msgs.setdefault(e["cid"], []).append((i, e))
-    tags = {f"mode-{case['mode']}"}
+    tags = {f"mode-{case['mode']}"} | g.message_tags(case)
     if case.get("yield_api"):
         tags.add("api-suspends")
     accepted_per_comp: dict[int, list[int]] = {}
@@ -146,7 +150,8 @@ def run(ctx: Ctx) -> None:
     if ctx.tier == "thorough":
         ex = g.exhaustive_cases(5)
         ctx.note(f"bounded-exhaustive: {len(ex)} action sequences of length <= 5 over "
-                 "{same-metric request, new-metric request, duplicate, message, yield} after one subscription")
+                 "{same-metric request, new-metric request, duplicate, message, yield} after one subscription; "
+                 "those with >= 2 messages also with one repeated timestamp / decreasing timestamps / identical messages")
         for case in ex:
             m, o = check_case(ctx, case)
             mcases.append(m); impls.append(o)
